@@ -318,6 +318,12 @@ VARIANTS = [
     V("twin: variance pivot through a renamed aggregate handle", ("C08", "C20"), "", "aggregate_npg.py",
       '    first = _get_aggregate(engine).aggregate(group_idx, array, func="nanfirst", axis=axis)',
       '    agg_ = _get_aggregate(engine).aggregate\n    first = agg_(group_idx, array, func="nanfirst", axis=axis)', expect="silent"),
+    V("blueprint given a threading.Lock when it is initialised", ("C13",), "R-PICKLE", "aggregations.py",
+      '        agg.finalize_kwargs = copy.deepcopy(finalize_kwargs)\n',
+      '        agg.finalize_kwargs = copy.deepcopy(finalize_kwargs)\n        import threading\n        agg._derive_lock = threading.Lock()\n', must_mention="lock"),
+    V("twin: blueprint given a picklable placeholder context", ("C13",), "", "aggregations.py",
+      '        agg.finalize_kwargs = copy.deepcopy(finalize_kwargs)\n',
+      '        agg.finalize_kwargs = copy.deepcopy(finalize_kwargs)\n        import contextlib\n        agg._derive_lock = contextlib.nullcontext()\n', expect="silent"),
     V("dtype promotion memoised with an untyped key", ("C14",), "R-MEMO", "xrdtypes.py", '        dtype = np.result_type(dtype, fill_value)\n    return dtype\n',
       '        dtype = _promote_for_fill_value(dtype, fill_value)\n    return dtype\n\n\n@functools.lru_cache\ndef _promote_for_fill_value(dtype: np.dtype, fill_value) -> np.dtype:\n    return np.result_type(dtype, fill_value)\n', must_mention="typed"),
     V("twin: dtype promotion memoised with typed=True", ("C14",), "", "xrdtypes.py", '        dtype = np.result_type(dtype, fill_value)\n    return dtype\n',
